@@ -389,6 +389,14 @@ class Interp:
             for t in st.targets:
                 if isinstance(t, ast.Name):
                     env.pop(t.id, None)
+                elif isinstance(t, ast.Subscript) and isinstance(t.slice, ast.Slice):
+                    base = self.eval(t.value, env, f)
+                    lo = None if t.slice.lower is None else self.eval(t.slice.lower, env, f)
+                    hi = None if t.slice.upper is None else self.eval(t.slice.upper, env, f)
+                    if isinstance(base, list) and t.slice.step is None and all(x is None or (isinstance(x, int) and not isinstance(x, bool)) for x in (lo, hi)):
+                        del base[lo:hi]
+                    else:
+                        raise Unsupported("del %s[%r:%r]" % (norm(t.value), lo, hi))
                 elif isinstance(t, ast.Subscript) and not isinstance(t.slice, ast.Slice):
                     base = self.eval(t.value, env, f)
                     key = self.eval(t.slice, env, f)
